@@ -18,10 +18,10 @@ ASSUMPTIONS = ["'dispatch' is observed at Producer._send_requests (the hand-over
                "state clauses read Producer._batch_reqs/_waitingMsgCount/_waitingByteCount/_batch_send_d at quiescent "
                "points; a missing attribute makes that clause inconclusive, not passed",
                "cancellation error = afkak.common.CancelledError or twisted.internet.defer.CancelledError"]
-REACH_MIN = {"dispatches": {"quick": 500, "thorough": 15000}, "threshold_dispatches": {"quick": 200, "thorough": 6000},
-             "tick_dispatches": {"quick": 60, "thorough": 1800}, "cancel_before_dispatch": {"quick": 50, "thorough": 1500},
-             "cancel_after_dispatch": {"quick": 10, "thorough": 300}, "stops_with_outstanding": {"quick": 40, "thorough": 1200},
-             "dispatch_on_resolve": {"quick": 60, "thorough": 1800}, "state_checks": {"quick": 5000, "thorough": 150000}}
+REACH_MIN = {"dispatches": {"quick": 344, "thorough": 5805}, "threshold_dispatches": {"quick": 200, "thorough": 3375},
+             "tick_dispatches": {"quick": 60, "thorough": 1012}, "cancel_before_dispatch": {"quick": 48, "thorough": 810},
+             "cancel_after_dispatch": {"quick": 10, "thorough": 168}, "stops_with_outstanding": {"quick": 28, "thorough": 472},
+             "dispatch_on_resolve": {"quick": 30, "thorough": 506}, "state_checks": {"quick": 5000, "thorough": 84375}}
 
 
 def cases(tier, seed):
